@@ -58,20 +58,20 @@ Theorem C13_triangular_injective :
 Proof. exact ProbeSeq.tri_inj. Qed.
 Print Assumptions C13_triangular_injective.
 
-(* Bucket bookkeeping that shares bytes with the bound (Open2N2: the two count bits of mState[1]; OpenN1/Open8: the
+(* Bucket bookkeeping that shares bytes with the bound (Open2N2<maxCount>, maxCount symbolic in 1..3: the two count bits of mState[1]; OpenN1/Open8: the
    short-hash / state bytes of mData next to the bound byte, for BOTH values of the `reverse` template parameter:
    HashBucketOpenN1 defaults to true, BucketOpen8 is BucketOpenN1<.,7,false>).  For ANY remaining arguments, AddCrt on a bucket that has
    room and Remove on a bucket that has an item keep the encoding reachable, leave the decoded bound EXACTLY as it was,
    and move the element count by exactly one. *)
 Theorem C13_open2n2_addcrt_keeps_bound :
-  forall a b, BucketOps.O2.good b -> 0 <= BucketOps.O2.cnt b < 3 ->
-    BucketOps.O2.good (BucketOps.O2.addP a b) /\ BucketOps.O2.dec (BucketOps.O2.addP a b) = BucketOps.O2.dec b /\
-    BucketOps.O2.cnt (BucketOps.O2.addP a b) = BucketOps.O2.cnt b + 1.
+  forall mc, 1 <= mc <= 3 -> forall a b, BucketOps.O2.good mc b -> 0 <= BucketOps.O2.cnt b < mc ->
+    BucketOps.O2.good mc (BucketOps.O2.addP mc a b) /\ BucketOps.O2.dec (BucketOps.O2.addP mc a b) = BucketOps.O2.dec b /\
+    BucketOps.O2.cnt (BucketOps.O2.addP mc a b) = BucketOps.O2.cnt b + 1.
 Proof. exact BucketOps.O2.add_spec. Qed.
 Print Assumptions C13_open2n2_addcrt_keeps_bound.
 Theorem C13_open2n2_remove_keeps_bound :
-  forall a b b', BucketOps.O2.good b -> 0 < BucketOps.O2.cnt b <= 3 -> BucketOps.O2.remP a b = Some b' ->
-    BucketOps.O2.good b' /\ BucketOps.O2.dec b' = BucketOps.O2.dec b /\ BucketOps.O2.cnt b' = BucketOps.O2.cnt b - 1.
+  forall mc, 1 <= mc <= 3 -> forall a b b', BucketOps.O2.good mc b -> 0 < BucketOps.O2.cnt b <= mc -> BucketOps.O2.remP mc a b = Some b' ->
+    BucketOps.O2.good mc b' /\ BucketOps.O2.dec b' = BucketOps.O2.dec b /\ BucketOps.O2.cnt b' = BucketOps.O2.cnt b - 1.
 Proof. exact BucketOps.O2.rem_spec. Qed.
 Print Assumptions C13_open2n2_remove_keeps_bound.
 Theorem C13_openn1_addcrt_keeps_bound :
@@ -90,7 +90,8 @@ Proof. exact BucketOps.N1.rem_spec. Qed.
 Print Assumptions C13_openn1_remove_keeps_bound.
 (* IsFull -- the room test of HashSet::pvAddNogrow -- is true exactly when the count bits say maxCount *)
 Theorem C13_open2n2_isfull_iff_count_is_max :
-  forall b, BucketOps.O2.good b -> 0 <= BucketOps.O2.cnt b <= 3 -> (BucketOps.O2.full b = true <-> BucketOps.O2.cnt b = 3).
+  forall mc, 1 <= mc <= 3 -> forall b, BucketOps.O2.good mc b -> 0 <= BucketOps.O2.cnt b <= mc ->
+    (BucketOps.O2.full b = true <-> BucketOps.O2.cnt b = mc).
 Proof. exact BucketOps.O2.full_iff. Qed.
 Print Assumptions C13_open2n2_isfull_iff_count_is_max.
 Theorem C13_openn1_isfull_iff_count_is_max :
@@ -100,7 +101,8 @@ Proof. exact BucketOps.N1.full_iff. Qed.
 Print Assumptions C13_openn1_isfull_iff_count_is_max.
 (* the constructor / Clear (pvSetEmpty) give the state every history starts from: reachable, count 0, bound 0 *)
 Theorem C13_open2n2_empty_bucket :
-  BucketOps.O2.good BucketOps.O2.empty /\ BucketOps.O2.cnt BucketOps.O2.empty = 0 /\ BucketOps.O2.dec BucketOps.O2.empty = 0.
+  forall mc, BucketOps.O2.good mc (BucketOps.O2.empty mc) /\ BucketOps.O2.cnt (BucketOps.O2.empty mc) = 0 /\
+    BucketOps.O2.dec (BucketOps.O2.empty mc) = 0.
 Proof. exact BucketOps.O2.empty_good. Qed.
 Print Assumptions C13_open2n2_empty_bucket.
 Theorem C13_openn1_empty_bucket :
@@ -116,28 +118,28 @@ Print Assumptions C13_openn1_empty_bucket.
    loses the item (with arbitrary remaining arguments).  For every history of insertions and removals from the
    table of freshly constructed buckets, a key that is present in some bucket is found by the bounded probe loop. *)
 Theorem C13_open2n2_present_key_always_found :
-  forall n h ops b k,
-  0 <= n <= 63 -> (forall k, 0 <= h k < 2 ^ n) ->
-  let s := fold_left (OpenInstances.o2_step n h) ops OpenInstances.o2_empty in
+  forall mc n h ops b k,
+  1 <= mc <= 3 -> 0 <= n <= 63 -> (forall k, 0 <= h k < 2 ^ n) ->
+  let s := fold_left (OpenInstances.o2_step mc n h) ops (OpenInstances.o2_empty mc) in
   In k (OpenTable.bk _ s b) -> OpenInstances.o2_find n h s k = true.
 Proof. exact OpenInstances.open2n2_present_key_found. Qed.
 Print Assumptions C13_open2n2_present_key_always_found.
 (* ... the count bits of every bucket equal the number of items it holds (so IsFull / GetBounds stay right) ... *)
 Theorem C13_open2n2_bucket_counts_exact :
-  forall n h ops i,
-  0 <= n <= 63 -> (forall k, 0 <= h k < 2 ^ n) ->
-  let s := fold_left (OpenInstances.o2_step n h) ops OpenInstances.o2_empty in
-  BucketOps.O2.cnt (OpenTable.bd _ s i) = Z.of_nat (length (OpenTable.bk _ s i)) /\ (length (OpenTable.bk _ s i) <= 3)%nat.
+  forall mc n h ops i,
+  1 <= mc <= 3 -> 0 <= n <= 63 -> (forall k, 0 <= h k < 2 ^ n) ->
+  let s := fold_left (OpenInstances.o2_step mc n h) ops (OpenInstances.o2_empty mc) in
+  BucketOps.O2.cnt (OpenTable.bd _ s i) = Z.of_nat (length (OpenTable.bk _ s i)) /\ (length (OpenTable.bk _ s i) <= Z.to_nat mc)%nat.
 Proof. exact OpenInstances.open2n2_counts_exact. Qed.
 Print Assumptions C13_open2n2_bucket_counts_exact.
 (* ... and an insertion into any reachable table reports "Hash table is full" only when no bucket of the table has
    room; the probing loop of the model tests the generated IsFull, as HashSet::pvAddNogrow does. *)
 Theorem C13_open2n2_insert_fails_only_if_all_buckets_full :
-  forall n h ops k a,
-  0 <= n <= 63 -> (forall k, 0 <= h k < 2 ^ n) ->
-  let s := fold_left (OpenInstances.o2_step n h) ops OpenInstances.o2_empty in
-  OpenInstances.o2_add n h s k a = None ->
-  forall b, 0 <= b < 2 ^ n -> (3 <= length (OpenTable.bk _ s b))%nat.
+  forall mc n h ops k a,
+  1 <= mc <= 3 -> 0 <= n <= 63 -> (forall k, 0 <= h k < 2 ^ n) ->
+  let s := fold_left (OpenInstances.o2_step mc n h) ops (OpenInstances.o2_empty mc) in
+  OpenInstances.o2_add mc n h s k a = None ->
+  forall b, 0 <= b < 2 ^ n -> (Z.to_nat mc <= length (OpenTable.bk _ s b))%nat.
 Proof. exact OpenInstances.open2n2_full_only_if_all_full. Qed.
 Print Assumptions C13_open2n2_insert_fails_only_if_all_buckets_full.
 
